@@ -170,6 +170,18 @@ CHECKS = {
     {"pkg": "./main", "test": "TestC07Env", "shards": {"quick": 16, "thorough": 16}},
   ],
  },
+ "C17": {
+  "engine": "E-ENV",
+  "rule": "(a) exhaustive enumeration of the eligibility option combinations on a tree with one file of every kind, each combination one real one-shot run of sender and receiver, compared with the predicate of the statement; (b) deviation-bounded enumeration of file changes (rewrite, append, touch, delete) at every externally visible action of a running sender; distinct = distinct option combinations / plans",
+  "level": "Eligibility: every option combination of the bound is executed end to end. Histories: every placement of <= d file changes against the sender's actions is executed on the real system and delivery of complete, latest versions is checked.",
+  "note": "Bounds: see coverage.parts[].bound. For symbolic links the statement does not say whose size and age count; they are not part of the enumerated tree. A writer striking between the sender's last comparison and the unlink is outside the alphabet.",
+  "technique": "exhaustive enumeration of configurations and of deviation-bounded file-change plans on the implementation (end-to-end, virtual time)",
+  "assumptions": ["one schedule per plan (single P, idle-only clock advance)", "file changes are applied at the sender's externally visible actions"],
+  "parts": [
+    {"pkg": "./main", "test": "TestC17Elig", "shards": {"quick": 16, "thorough": 16}},
+    {"pkg": "./main", "test": "TestC17Env", "shards": {"quick": 16, "thorough": 16}},
+  ],
+ },
 }
 
 NOT_APPLICABLE = {}
